@@ -44,8 +44,9 @@ def plan(tier, seed):
 
 VALUES = ["a", "ab", "abc", "", "a\x00b", "\x00", "é", "aÿ", "x" * 255, "y" * 256, "z" * 257, "w" * 300, "v" * 2000, "A",
           "é" * 128, "é" * 129, "é" * 250, "あ" * 200, "\U0001f600" * 64, "\U0001f600" * 65,
-          5, 0, -1, 1.5, True, False, None, ["x"], ["x", ["y"]], [], "5", "None", "['x']", "('x',)", 2 ** 63 - 1, 1e20]
-NAMES = ["e", "p", "t", "d", "é", "\U0001f600", "expiration", "delegation", "ab", "", "\x00", " "]
+          5, 0, -1, 1.5, True, False, None, ["x"], ["x", ["y"]], [], "5", "None", "['x']", "('x',)", 2 ** 63 - 1, 1e20,
+          {"a": 1}, {"relays": ["wss://one", "wss://two"]}, {"a": {"b": [1, [2]]}}, {}, "k" * 462, "k" * 470, "k" * 471]
+NAMES = ["e", "p", "t", "d", "é", "\U0001f600", "expiration", "expiration", "delegation", "ab", "", "\x00", " "]
 
 
 def rnd_event(r, keys, i, kind=None):
@@ -231,13 +232,30 @@ async def run_history(ops, counters, inject, seed):
         keys = [ref.key_from_seed("c10-b%d" % i) for i in range(2)]
         conn = rig.connect("burst")
         burst = [e for e in (rnd_event(r, keys, 5000 + j) for j in range(40)) if e]
+        # big records + a tiny thread switch interval: the loop thread (admission) and the writer
+        # thread (storing) work on events at the same time
+        import sys as _sys
+
+        for j in range(12):
+            big = ref.make_event(r.choice(keys), kind=1, created_at=NOW - 300 + j, tags=[["t", "b%d-%d" % (j, x)] for x in range(250)], content="big%d" % j)
+            burst.insert(r.randrange(len(burst) + 1), big)
+        old_si = _sys.getswitchinterval()
+        _sys.setswitchinterval(1e-6)
         for e in burst:
             conn.feed(["EVENT", e])
         for _ in range(12):
             await asyncio.sleep(r.choice([0, 0.001, 0.003]))
             examine(dump.dump(rig), "concurrent", len(ops) - 1)
         await rig.quiesce()
-        examine(dump.dump(rig), "quiescent", len(ops) - 1)
+        _sys.setswitchinterval(old_si)
+        final = dump.dump(rig)
+        examine(final, "quiescent", len(ops) - 1)
+        # every record must BE the event it is filed under (a torn encode would still be indexed)
+        for e in burst:
+            rec = final["events"].get(e["id"])
+            if rec is not None and (rec["content"] != e["content"] or len(rec["tags"]) != len(e["tags"])):
+                viols.append({"key": "record-is-not-the-event", "msg": "[lmdb] record %s does not hold the event that was stored under it" % e["id"][:12],
+                              "replay": {"ops": hist_json, "inject": inject, "seed": seed}})
     finally:
         await rig.close()
     return viols, nontrivial
@@ -259,8 +277,10 @@ def run_shard(spec):
     for i in range(spec["histories"]):
         ops = gen_history(r)
         inject = None
-        if i % 3 == 0:
-            inject = {"before_op": r.randrange(len(ops)), "ordinal": r.choice([0, 1, 2, 3, 4, 5, 6, 8, 10, 13])}
+        if i % 3 != 2:
+            removing = [j for j, o in enumerate(ops) if o.label in ("replace", "delete-by-author", "gc", "delete_event")]
+            target = r.choice(removing) if (removing and r.random() < 0.75) else r.randrange(len(ops))
+            inject = {"before_op": target, "ordinal": r.choice(list(range(0, 16)) + [18, 22, 30])}
         histories.append((ops, inject, spec["case_seed"] * 100 + i))
     viols, nontrivial = R.run(run_many, histories, counters)
     seen, out = {}, []
